@@ -20,6 +20,7 @@ Fixpoint cv (v : view) : list tnode :=
   | VOpt None => [TC]
   | VVec l => flat_map cv l ++ [TC]
   | VStatic l => flat_map cv l
+  | VKeyed items => flat_map (fun kv => cv (snd kv)) items ++ [TC]
   end.
 
 (** ... by a state (whose elements hold exactly the nodes of their child state, see [good]) *)
@@ -31,6 +32,7 @@ Fixpoint cs (s : st) : list tnode :=
   | STuple _ l | SStatic l _ => flat_map cs l
   | SEither _ _ c | SOptSome c => cs c
   | SVec l _ => flat_map cs l ++ [TC]
+  | SKeyed rows _ _ => flat_map (fun r => cs (snd r)) rows ++ [TC]
   end.
 
 (* ------------------------------------------------------------------------- the fragment *)
@@ -51,6 +53,7 @@ Fixpoint okv (v : view) : Prop :=
   | VEither _ _ c | VOpt (Some c) => okv c
   | VVec l => (fix all l := match l with [] => True | x :: r => okv x /\ all r end) l
   | VStatic _ => False
+  | VKeyed _ => False        (* keyed lists: see C11; not yet part of this induction *)
   end.
 
 Fixpoint all_okv (l : list view) : Prop := match l with [] => True | x :: r => okv x /\ all_okv r end.
@@ -74,6 +77,7 @@ Fixpoint good (n : N) (s : st) : Prop :=
   | SEither _ _ c | SOptSome c => good n c
   | SVec l mk => (mk < n)%N /\ (fix all l := match l with [] => True | x :: r => good n x /\ all r end) l
   | SStatic _ _ => False
+  | SKeyed _ _ _ => False
   end.
 Fixpoint all_good (n : N) (l : list st) : Prop := match l with [] => True | x :: r => good n x /\ all_good n r end.
 
@@ -94,9 +98,10 @@ Lemma view_ind' : forall P : view -> Prop,
   (forall c, P c -> P (VOpt (Some c))) -> P (VOpt None) ->
   (forall l, Forall P l -> P (VVec l)) ->
   (forall l, Forall P l -> P (VStatic l)) ->
+  (forall items, Forall (fun kv => P (snd kv)) items -> P (VKeyed items)) ->
   forall v, P v.
 Proof.
-  intros P H1 H2 H3 H4 H5 H6 H7 H8 H9. fix IH 1. intros v. destruct v as [k s| |tag a c|a l|ar r c|[c|]|l|l].
+  intros P H1 H2 H3 H4 H5 H6 H7 H8 H9 H10. fix IH 1. intros v. destruct v as [k s| |tag a c|a l|ar r c|[c|]|l|l|items].
   - apply H1.
   - apply H2.
   - apply H3. apply IH.
@@ -106,13 +111,14 @@ Proof.
   - apply H7.
   - apply H8. induction l; constructor; auto.
   - apply H9. induction l; constructor; auto.
+  - apply H10. induction items as [|[k x] items IHi]; constructor; auto.
 Qed.
 
 (* ----------------------------------------------------------------- ids, bounds, lists *)
 
 Lemma good_mono : forall s n m, (n <= m)%N -> good n s -> good m s.
 Proof.
-  fix IH 1. intros s n m Hle. destruct s as [id k t|id|id tag prev d kids c|arr l|ar r c|c|ph|l mk|l b]; simpl; intros H.
+  fix IH 1. intros s n m Hle. destruct s as [id k t|id|id tag prev d kids c|arr l|ar r c|c|ph|l mk|l b|rows mk g]; simpl; intros H.
   - lia.
   - lia.
   - destruct H as [H1 [H2 [H3 [H5 H6]]]].
@@ -125,6 +131,7 @@ Proof.
   - destruct H as [H1 H2]. split; [lia|]. clear H1. induction l as [|x l IHl]; auto. destruct H2 as [A B].
     split; [eapply IH; eauto | apply IHl; exact B].
   - exact H.
+  - exact H.
 Qed.
 
 Lemma all_good_mono : forall l n m, (n <= m)%N -> all_good n l -> all_good m l.
@@ -133,7 +140,7 @@ Proof. induction l; simpl; intros; auto. destruct H0. split; eauto using good_mo
 (** all top-level ids of a good state are below the bound *)
 Lemma good_ids_lt : forall s n, good n s -> forall x, In x (ids s) -> (x < n)%N.
 Proof.
-  fix IH 1. intros s n. destruct s as [id k t|id|id tag prev d kids c|arr l|ar r c|c|ph|l mk|l b]; simpl; intros H x Hx.
+  fix IH 1. intros s n. destruct s as [id k t|id|id tag prev d kids c|arr l|ar r c|c|ph|l mk|l b|rows mk g]; simpl; intros H x Hx.
   - destruct Hx as [<-|[]]. auto.
   - destruct Hx as [<-|[]]. auto.
   - destruct Hx as [<-|[]]. tauto.
@@ -146,17 +153,19 @@ Proof.
     induction l as [|y l IHl]; simpl in *; [contradiction|]. destruct H.
     apply in_app_or in Hx. destruct Hx; eauto.
   - contradiction.
+  - contradiction.
 Qed.
 
 (** a good state always owns at least one top-level node *)
 Lemma good_ids_nonempty : forall s n, good n s -> ids s <> [].
 Proof.
-  fix IH 1. intros s n. destruct s as [id k t|id|id tag prev d kids c|arr l|ar r c|c|ph|l mk|l b]; simpl; intros H; try discriminate.
+  fix IH 1. intros s n. destruct s as [id k t|id|id tag prev d kids c|arr l|ar r c|c|ph|l mk|l b|rows mk g]; simpl; intros H; try discriminate.
   - destruct H as [Hne H]. destruct l as [|x l]; [congruence|]. destruct H as [Hx _]. simpl.
     pose proof (IH x n Hx). destruct (ids x); [congruence|discriminate].
   - eauto.
   - eauto.
   - destruct (flat_map ids l); discriminate.
+  - contradiction.
   - contradiction.
 Qed.
 
@@ -208,21 +217,23 @@ Qed.
 
 Lemma mark_mounted_ids : forall s, ids (mark_mounted s) = ids s.
 Proof.
-  fix IH 1. intros s. destruct s as [id k t|id|id tag prev d kids c|arr l|ar r c|c|ph|l mk|l b]; simpl; auto.
+  fix IH 1. intros s. destruct s as [id k t|id|id tag prev d kids c|arr l|ar r c|c|ph|l mk|l b|rows mk g]; simpl; auto.
   - induction l as [|x l IHl]; simpl; auto. rewrite IH, IHl. reflexivity.
   - f_equal. induction l as [|x l IHl]; simpl; auto. rewrite IH, IHl. reflexivity.
   - induction l as [|x l IHl]; simpl; auto. rewrite IH, IHl. reflexivity.
+  - f_equal. induction rows as [|x l IHl]; simpl; auto. rewrite IH, IHl. reflexivity.
 Qed.
 
 Lemma mark_mounted_good : forall s n, good n s -> mark_mounted s = s.
 Proof.
-  fix IH 1. intros s n. destruct s as [id k t|id|id tag prev d kids c|arr l|ar r c|c|ph|l mk|l b]; simpl; intros H; auto.
+  fix IH 1. intros s n. destruct s as [id k t|id|id tag prev d kids c|arr l|ar r c|c|ph|l mk|l b|rows mk g]; simpl; intros H; auto.
   - destruct H as [_ H]. f_equal. induction l as [|x l IHl]; simpl; auto. destruct H as [A B].
     rewrite (IH x n A), IHl; auto.
   - f_equal. eauto.
   - f_equal. eauto.
   - destruct H as [_ H]. f_equal. induction l as [|x l IHl]; simpl; auto. destruct H as [A B].
     rewrite (IH x n A), IHl; auto.
+  - contradiction.
   - contradiction.
 Qed.
 
@@ -231,7 +242,7 @@ Qed.
 Lemma anchor_first : forall s n dom, good n s -> (forall x, In x (ids s) -> In x dom) ->
   exists a rest, ids s = a :: rest /\ anchor_of s dom = Some a.
 Proof.
-  fix IH 1. intros s n dom. destruct s as [id k t|id|id tag prev d kids c|arr l|ar r c|c|ph|l mk|l b]; simpl; intros H Hin.
+  fix IH 1. intros s n dom. destruct s as [id k t|id|id tag prev d kids c|arr l|ar r c|c|ph|l mk|l b|rows mk g]; simpl; intros H Hin.
   - exists id, []. split; auto. assert (memN id dom = true) as -> by (apply memN_In; apply Hin; left; auto). auto.
   - exists id, []. split; auto. assert (memN id dom = true) as -> by (apply memN_In; apply Hin; left; auto). auto.
   - exists id, []. split; auto. assert (memN id dom = true) as -> by (apply memN_In; apply Hin; left; auto). auto.
@@ -248,6 +259,7 @@ Proof.
     + destruct H as [Hx _]. destruct (IH x n dom Hx) as [a [rest [E Ea]]].
       { intros y Hy. apply Hin. simpl. apply in_or_app. left. apply in_or_app. left. auto. }
       exists a, ((rest ++ flat_map ids l) ++ [mk]). simpl. rewrite E, Ea. split; auto.
+  - contradiction.
   - contradiction.
 Qed.
 
@@ -355,6 +367,7 @@ Proof.
     + intros x Hx. apply in_app_or in Hx. destruct Hx as [Hx|[<-|[]]]; [|lia]. specialize (Lo x Hx). lia.
     + apply NoDup_snoc; auto. intro Hc. specialize (Lo n Hc). lia.
   - intros l _ [].
+  - intros items _ [].
 Qed.
 
 (* --------------------------------------------------------------------- attributes *)
@@ -803,7 +816,7 @@ Proof.
     destruct (tcode_eqb (tc_view (VEl tag a c)) (tc_st s)) eqn:Etc.
     2:{ rewrite rebuild_any_diff in E by auto. eapply replace_with_ok; eauto. }
     rewrite compat_same in Hcp by auto.
-    destruct s as [| |id tag0 prev d kids c0| | | | | |]; try discriminate.
+    destruct s as [| |id tag0 prev d kids c0| | | | | | |]; try discriminate.
     cbn [tc_view tc_st tcode_eqb] in Etc. apply Nat.eqb_eq in Etc. subst tag0.
     cbn [rebuild_any tc_view tc_st tcode_eqb] in E. rewrite Nat.eqb_refl in E. cbn [negb] in E.
     cbn [okv] in Hok. destruct Hcp as [Ha Hcc]. destruct Hg as [Hid [Hk [Hda [Hndc Hgc]]]].
@@ -822,7 +835,7 @@ Proof.
     destruct (tcode_eqb (tc_view (VTuple a l)) (tc_st s)) eqn:Etc.
     2:{ rewrite rebuild_any_diff in E by auto. eapply replace_with_ok; eauto. }
     rewrite compat_same in Hcp by auto.
-    destruct s as [| | |a0 ss| | | | |]; try discriminate.
+    destruct s as [| | |a0 ss| | | | | |]; try discriminate.
     cbn [tc_view tc_st tcode_eqb] in Etc. apply andb_true_iff in Etc. destruct Etc as [Ea Etc].
     apply eqb_prop in Ea. apply Nat.eqb_eq in Etc.
     rewrite rebuild_tuple_eq in E by auto. destruct (rebuild_list l ss w) as [ss1 w1] eqn:El.
@@ -837,7 +850,7 @@ Proof.
     destruct (tcode_eqb (tc_view (VEither ar r c)) (tc_st s)) eqn:Etc.
     2:{ rewrite rebuild_any_diff in E by auto. eapply replace_with_ok; eauto. }
     rewrite compat_same in Hcp by auto.
-    destruct s as [| | | |ar0 r0 c0| | | |]; try discriminate.
+    destruct s as [| | | |ar0 r0 c0| | | | |]; try discriminate.
     cbn [rebuild_any] in E. rewrite Etc in E. cbn [negb] in E. cbn [okv good ids] in *.
     destruct (Nat.eqb r r0).
     + destruct (rebuild_any c c0 w) as [c1 w1] eqn:Ec. inversion E. subst s' w'. clear E.
@@ -851,7 +864,7 @@ Proof.
     destruct (tcode_eqb (tc_view (VOpt (Some c))) (tc_st s)) eqn:Etc.
     2:{ rewrite rebuild_any_diff in E by auto. eapply replace_with_ok; eauto. }
     rewrite compat_same in Hcp by auto.
-    destruct s as [| | | | |c0|ph| |]; try discriminate;
+    destruct s as [| | | | |c0|ph| | |]; try discriminate;
       cbn [rebuild_any tc_view tc_st tcode_eqb negb] in E; cbn [okv good ids] in *.
     + destruct (rebuild_any c c0 w) as [c1 w1] eqn:Ec. inversion E. subst s' w'. clear E.
       destruct (IH Hok c0 pre post w Hcp) with (s' := c1) (w' := w1) as [P1 [D1 [G1 [C1 [L1 N1]]]]]; auto.
@@ -863,7 +876,7 @@ Proof.
     intros _ s pre post w Hcp Hg Hp Hd Hnd Hb s' w' E.
     destruct (tcode_eqb (tc_view (VOpt None)) (tc_st s)) eqn:Etc.
     2:{ rewrite rebuild_any_diff in E by auto. eapply replace_with_ok; eauto. exact I. }
-    destruct s as [| | | | |c0|ph| |]; try discriminate;
+    destruct s as [| | | | |c0|ph| | |]; try discriminate;
       cbn [rebuild_any tc_view tc_st tcode_eqb negb] in E; cbn [good ids] in *.
     + (* the old content is replaced by a placeholder *)
       destruct (anchor_first c0 (r_next w) (r_dom w) Hg) as [a [rest [Ei Ea]]].
@@ -907,7 +920,7 @@ Proof.
     destruct (tcode_eqb (tc_view (VVec l)) (tc_st s)) eqn:Etc.
     2:{ rewrite rebuild_any_diff in E by auto. eapply replace_with_ok; eauto. }
     rewrite compat_same in Hcp by auto.
-    destruct s as [| | | | | | |ss mk|]; try discriminate.
+    destruct s as [| | | | | | |ss mk| |]; try discriminate.
     pose proof Hok as Hokv. apply (proj1 (okv_vec _)) in Hok. apply (proj1 (good_vec _ _ _)) in Hg. destruct Hg as [Hmk Hgl].
     cbn [ids] in Hd, Hnd. rewrite <- app_assoc in Hd, Hnd. cbn [app] in Hd, Hnd.
     assert (forall x, In x (pre ++ mk :: post) -> (x < r_next w)%N) as Hb'.
@@ -945,4 +958,5 @@ Proof.
         unfold post_ok. cbn [ids cs cv]. rewrite good_vec. rewrite <- !app_assoc. cbn [app].
         repeat split; auto; try lia; try (rewrite C1; reflexivity).
   - intros l _ [].
+  - intros items _ [].
 Qed.
